@@ -21,7 +21,7 @@ LEVEL_NOTE = ("Trusted: SimNet FIFO model, brute-force oracle. Costs are non-neg
 RULE = ("case = binary DCOP + schedule + seed; non-trivial = >=3 variables, >=2 constraints and >=1 backward message "
         "observed before the last one; distinct by sha1(case)")
 ASSUMPTIONS = ["costs >= 0 for min objective", "binary constraints only, no variable costs"]
-BUDGET = {"quick": {"workers": 6, "examples": 300, "seconds": 40},
+BUDGET = {"quick": {"workers": 8, "examples": 800, "seconds": 40},
           "thorough": {"workers": 16, "examples": 3000, "seconds": 600}}
 
 
